@@ -52,6 +52,12 @@ BigChecks(run) ==
                             /\ ~Matches(cfg.finish, DiscNames(run), G.props)) =>
                            /\ d.total >= cfg.target_states
                            /\ Cardinality(InitB(G)) + SumOver(vn, [v \in vn |-> Len(SelectSeq(SuccList(G, v), LAMBDA t : t # 0 /\ InB(G, t)))]) >= cfg.target_states],
+    \* C13 on big graphs: reported always/sometimes witnesses of 1-thread BFS are shortest
+    shortest |-> [a |-> cfg.strategy = "bfs" /\ cfg.threads = 1 /\ Len(d.discoveries) > 0,
+                  c |-> (cfg.strategy = "bfs" /\ cfg.threads = 1) =>
+                          \A i \in DOMAIN d.discoveries :
+                             LET x == d.discoveries[i]  p == PropNamed(G, x.name) IN
+                             p.kind \in {"always", "sometimes"} => Len(x.states) = MinWitnessDepth(G, p)],
     \* BFS with one thread still visits by depth
     bfs_depth |-> [a |-> cfg.strategy = "bfs" /\ cfg.threads = 1,
                    c |-> (cfg.strategy = "bfs" /\ cfg.threads = 1) => \A i \in DOMAIN vis : i > 1 => vis[i - 1].depth <= vis[i].depth]
